@@ -10,6 +10,8 @@ the array parameters, and substituting one leaf changes exactly that parameter â
 registry (set by operators instantiated earlier in the process), which is explored as a symbolic input."""
 import itertools
 
+import json
+
 import numpy as np
 
 import cola
@@ -202,6 +204,16 @@ def _alg_scenarios():
         "inv(CG)": (lambda: L_.CG(max_iters=60, tol=1e-12), psd, lambda A, alg: L_.inv(A, alg) @ np.ones(A.shape[0])),
         "inv(GMRES)": (lambda: L_.GMRES(max_iters=40, tol=1e-12), gen, lambda A, alg: L_.inv(A, alg) @ np.ones(A.shape[0])),
         "diag(Auto)": (lambda: L_.Auto(tol=0.2, max_iters=3, key=5), lambda M: cola.no_dispatch(gen(M)), lambda A, alg: D_.diag(A, 0, alg)),
+        # the automatic algorithm, passed explicitly and left to the default argument (alg = None here): option objects shared between calls
+        "pinv(Auto)": (lambda: L_.Auto(), gen, lambda A, alg: (P_.pinv(A, alg) if alg is not None else P_.pinv(A)) @ np.ones(A.shape[0])),
+        "pinv(default)": (lambda: None, gen, lambda A, alg: P_.pinv(A) @ np.ones(A.shape[0])),
+        "inv(Auto)": (lambda: L_.Auto(), gen, lambda A, alg: L_.inv(A, alg) @ np.ones(A.shape[0])),
+        "inv(default)": (lambda: None, psd, lambda A, alg: L_.inv(A) @ np.ones(A.shape[0])),
+        "eig(Auto)": (lambda: L_.Auto(), psd, lambda A, alg: np.sort(np.asarray(E_.eig(A, A.shape[0], "LM", alg)[0]).real)),
+        "svd(Auto)": (lambda: L_.Auto(), gen, lambda A, alg: np.asarray(S_.svd(A, A.shape[0], "LM", alg)[1].diag)),
+        "sqrt(Auto)": (lambda: L_.Auto(), psd, lambda A, alg: U_.sqrt(A, alg) @ np.ones(A.shape[0])),
+        "logdet(default)": (lambda: None, psd, lambda A, alg: np.asarray(L_.logdet(A))),
+        "trace(Auto)": (lambda: L_.Auto(), lambda M: cola.no_dispatch(gen(M)), lambda A, alg: np.asarray(D_.trace(A, alg))),
         "logdet(Lanczos)": (lambda: Lanczos(max_iters=50), psd, lambda A, alg: np.asarray(L_.logdet(A, alg, L_.Exact() if hasattr(L_, "Exact") else D_.Exact()))),
     }
 
@@ -223,19 +235,30 @@ def case_alg_object(T, name):
         alg = factory()
 
         def snap(a):
+            if a is None:
+                return {}
             return {k: (np.array(v, copy=True) if isinstance(v, np.ndarray) else v) for k, v in vars(a).items()}
+
+        def all_algs():
+            # every algorithm / option object alive in the process, the default arguments of the library's functions included
+            import gc
+            from cola.linalg.algorithm_base import Algorithm
+            return [o for o in gc.get_objects() if isinstance(o, Algorithm)]
 
         def same(d1, d2):
             return d1.keys() == d2.keys() and all((np.array_equal(d1[k], d2[k]) if isinstance(d1[k], np.ndarray) else d1[k] == d2[k]) for k in d1)
         before = snap(alg)
+        alive = [(o, snap(o)) for o in all_algs()]
         try:
             call(small, alg)
-            T.check(f"{name}: the algorithm object's fields are unchanged by the call", same(before, snap(alg)), f"{before} -> {vars(alg)}"[:300])
+            T.check(f"{name}: the algorithm object's fields are unchanged by the call", same(before, snap(alg)), f"{before} -> {snap(alg)}"[:300])
+            changed = [f"{type(o).__name__}: {b} -> {snap(o)}" for o, b in alive if not same(b, snap(o))]
+            T.check(f"{name}: no option object alive before the call (shared defaults included) was modified", not changed, "; ".join(changed)[:300])
             r_reused = np.asarray(call(big, alg))
             r_fresh = np.asarray(call(big, factory()))
             T.check(f"{name}: reusing the object on a larger operator == a fresh object", r_reused.shape == r_fresh.shape and bool(np.array_equal(r_reused, r_fresh)),
                     f"max difference {np.abs(r_reused - r_fresh).max() if r_reused.shape == r_fresh.shape else 'shapes ' + str((r_reused.shape, r_fresh.shape))}")
-            T.check(f"{name}: fields unchanged after the second call", same(before, snap(alg)), f"{before} -> {vars(alg)}"[:300])
+            T.check(f"{name}: fields unchanged after the second call", same(before, snap(alg)), f"{before} -> {snap(alg)}"[:300])
         except Exception as e:
             T.check(f"{name}:!exception", False, f"{type(e).__name__}: {e}"[:200])
     finally:
@@ -267,8 +290,14 @@ def _arrays_of(op):
     return out
 
 
-def case_flatten(T, tree):
+def case_flatten(T, tree, use_first=False):
     A, R = build(T, tree)
+    if use_first:
+        # the operator has been used before it is flattened (memoised intermediates must not travel with the structure)
+        A.to_dense()
+        A @ np.ones((A.shape[1], 1))
+        A.T
+        cola.densify(A)
     leaves, unflatten = A.flatten()
     params = _arrays_of(A)
     T.check("leaves are exactly the array parameters", len(leaves) == len(params) and all(any(l is p for p in params) for l in leaves),
@@ -288,8 +317,19 @@ def case_flatten(T, tree):
         leaves2, _ = Bi.flatten()
         T.check(f"leaf {i}: substituted array is the new leaf", leaves2[i] is new and all(leaves2[j] is leaves[j] for j in range(len(leaves)) if j != i))
         T.eq(f"leaf {i}: original operator unaffected", A.to_dense(), expected(T, R), dtype=False)
-        delta = Bi.to_dense() - A.to_dense()
         T.check(f"leaf {i}: shape kept", tuple(Bi.shape) == tuple(A.shape))
+        T.eq(f"leaf {i}: the rebuilt operator's dense form is its action on the identity", Bi.to_dense(),
+             Bi @ np.eye(A.shape[1], dtype=np.result_type(A.dtype, np.float32)), dtype=False)
+    # rebuilt from the parameters of a second, independently built operator of the same tree: represents that operator's matrix, nothing of A's
+    A2, R2 = build(T, tree, pfx="M")
+    leaves2, _ = A2.flatten()
+    if len(leaves2) == len(leaves) and "generic" not in json.dumps(tree):  # a matrix-free operator keeps its payload in a closure, not in leaves
+        B2 = unflatten(leaves2)
+        T.eq("rebuilt from another operator's parameters: represents that operator", B2.to_dense(), expected(T, R2), dtype=False)
+        x = T.arr("xf", (A.shape[1], ), 'float64')
+        from .common import ref_matmul, rfrom, Ref
+        T.eq("rebuilt from another operator's parameters: same action", B2 @ x, expected(T, ref_matmul(T, R2, Ref(rfrom(T, x.reshape(-1, 1)), 'float64'))).reshape(-1),
+             dtype=False)
 
 
 def _reset_registries():
@@ -357,7 +397,8 @@ def cases(tier, seed):
         for i, t in enumerate(triples):
             if (i + seed) % 211 == 0:
                 out.append((f"seq:{'|'.join(t)}", case_sequence, dict(seq=list(t))))
-    for name in ("eig(Arnoldi)", "eig(Lanczos)", "sqrt(Arnoldi)", "exp(Lanczos)", "svd(Lanczos)", "pinv(CG)", "inv(CG)", "inv(GMRES)", "diag(Auto)", "logdet(Lanczos)"):
+    for name in ("eig(Arnoldi)", "eig(Lanczos)", "sqrt(Arnoldi)", "exp(Lanczos)", "svd(Lanczos)", "pinv(CG)", "inv(CG)", "inv(GMRES)", "diag(Auto)", "logdet(Lanczos)",
+                 "pinv(Auto)", "pinv(default)", "inv(Auto)", "inv(default)", "eig(Auto)", "svd(Auto)", "sqrt(Auto)", "logdet(default)", "trace(Auto)"):
         out.append((f"alg:{name}", case_alg_object, dict(name=name), dict(validate=True)))
     # (b)
     trees = [["dense", 2, 3, F8], ["dense", 2, 2, C16], ["tri", 2, 1, F8], ["diag", 3, F8], ["scalar", 2, F8], ["identity", 2, F8], ["tridiag", 3, F8], ["perm", [1, 2, 0], F8],
@@ -369,6 +410,7 @@ def cases(tier, seed):
              ["product", ["scalar", 2, F8], ["sum", ["dense", 2, 2, F8], ["identity", 2, F8]]], ["kernel", 3, 2, 2, 2, F8], ["fft", 4, C16]]
     for t in trees:
         out.append((f"flat:{tree_name(t)}", case_flatten, dict(tree=t)))
+        out.append((f"flat-used:{tree_name(t)}", case_flatten, dict(tree=t, use_first=True)))
     firsts = [[], ["kron(I,I)", "I+I", "I@I*", "bd(I)"], ["sliced-slices"], ["sliced-arrays"], ["generic"], ["sum(D,D)", "kron(D,D)"]]
     thens = ["sum(D,D)", "prod(D,D)", "kron(D,D)", "bd(D,D)", "scalar*D", "sliced-slices", "sliced-arrays", "T(tridiag)", "generic"]
     for f in firsts:
